@@ -415,10 +415,10 @@ pub const MARK_NAMES: [&str; 8] = ["cafe\u{301}", "cafe", "हिंदी", "a\
 pub const FANCY_NAMES: [&str; 12] = ["a", "b'", "_x", "x1", "hello_world", "é", "λx", "中", "X", "a1b2", "'q", "longer_name_9"];
 
 /// Every spelling of every token kind (for soups / mutations).
-pub const TOKEN_SPELLINGS: [&str; 68] = [
+pub const TOKEN_SPELLINGS: [&str; 70] = [
     "a", "b", "c", "x'", "_y", "0", "1", "2", "3", "17", "{r}", "&", "*", "and", "|", "+", "or", "^", "xor", "nor", "nand", "=>", "implies", "in", "<=", "<=>", "iff", "eq", "-",
     "!", "not", "exists", "any", "forall", "all", "if", "then", "else", "lfp", "mu", "gfp", "nu", "true", "false", "#", "=", "<", ">", ">=", "(", ")", "[", "]", ",", "\"c\"", ";", "{", "}",
-    "\"", "'", "é", "٣", "\u{301}", "a\u{203f}b", "e\u{301}", "00", "000000000000000000001", "0000000000000000000000000000002",
+    "\"", "'", "é", "٣", "\u{301}", "a\u{203f}b", "e\u{301}", "00", "000000000000000000001", "0000000000000000000000000000002", "\0", "$",
 ];
 
 /// Token-level mutation of a valid token list: the interesting negatives are one edit from a sentence.
